@@ -76,7 +76,43 @@ CtlPrograms ==
                 Callee(stmt) >>, natives |-> Natives]
     : stmt \in Depth1 \cup Depth2 }
 
-Programs == CASE Shard = "ops" -> OpsPrograms [] Shard = "ctl" -> CtlPrograms
+\* ---- shard "std" ------------------------------------------------------------------
+\* every library function x a family of tables (sizes 0..4, ties, mixed int/real, string keys) x a
+\* family of callbacks; the input table is exported again after the call (must be unmodified)
+Arr(cs) == C("Array", cs, 0, 0, "", <<>>)
+Clo(params, body) == C("Closure", body, 0, 0, "", params)
+Ret(v) == Op1("Return", v)
+TableMakers == << <<SetV("t", 1, Arr(<<>>))>>,
+                  <<SetV("t", 1, Arr(<<IntC(5)>>))>>,
+                  <<SetV("t", 1, Arr(<<IntC(3), IntC(1), IntC(2)>>))>>,
+                  <<SetV("t", 1, Arr(<<IntC(2), IntC(2), IntC(1), IntC(2)>>))>>,
+                  <<SetV("t", 1, Arr(<<IntC(1), RealC(1, 1), IntC(2), RealC(3, 1)>>))>>,
+                  <<SetV("t", 1, C("CreateTable", <<>>, 0, 0, "", <<>>)),
+                    C("SetProperty", <<IntC(2), Rd("t", 1), Str("b", 1)>>, 0, 0, "", <<>>),
+                    C("SetProperty", <<IntC(1), Rd("t", 1), Str("a", 1)>>, 0, 0, "", <<>>),
+                    C("SetProperty", <<IntC(2), Rd("t", 1), IntC(7)>>, 0, 0, "", <<>>)>> >>
+P3 == <<Nm("k", 1), Nm("v", 1), Nm("i", 1)>>
+P2 == <<Nm("k", 1), Nm("v", 1)>>
+Callbacks3 == { Clo(P3, <<Ret(Op2("Less", IntC(1), Rd("v", 1)))>>),
+                Clo(P3, <<Ret(Rd("v", 1))>>),
+                Clo(P3, <<Log1(Rd("k", 1)), Ret(Op2("Equals", Rd("i", 1), IntC(1)))>>),
+                Clo(P3, <<Ret(IntC(0))>>),
+                Clo(P3, <<Log1(Rd("i", 1)), Ret(Op2("Add", Rd("v", 1), Rd("i", 1)))>>) }
+KeyFns == { Clo(P2, <<Ret(Rd("v", 1))>>),
+            Clo(P2, <<Ret(Op2("Sub", IntC(0), Rd("v", 1)))>>),
+            Clo(P2, <<Ret(IntC(0))>>),
+            Clo(P2, <<Log1(Rd("k", 1)), Ret(Op2("Mul", Rd("v", 1), Rd("v", 1)))>>) }
+StdMain(mk, callcard) == [fns |-> << Fn("main", <<>>, mk \o << SetG("r", 1, callcard), SetG("after", 5, Rd("t", 1)) >>, 0) >>,
+                          natives |-> Natives]
+NonTables == { NilC, IntC(5), Str("ab", 2), RealC(1, 1) }
+StdPrograms ==
+     { StdMain(TableMakers[j], CallC(f, <<cb, Rd("t", 1)>>)) : j \in 1..Len(TableMakers), f \in {"std.filter", "std.map", "std.any"}, cb \in Callbacks3 }
+\cup { StdMain(TableMakers[j], CallC(f, <<kf, Rd("t", 1)>>)) : j \in 1..Len(TableMakers), f \in {"std.min_by_key", "std.max_by_key", "std.sorted_by_key"}, kf \in KeyFns }
+\cup { StdMain(TableMakers[j], CallC(f, <<Rd("t", 1)>>)) : j \in 1..Len(TableMakers), f \in {"std.min", "std.max", "std.sorted", "std.to_array"} }
+\cup { StdMain(<<SetV("t", 1, x)>>, CallC(f, <<Rd("t", 1)>>)) : x \in NonTables, f \in {"std.min", "std.max", "std.sorted", "std.to_array"} }
+\cup { StdMain(<<SetV("t", 1, x)>>, CallC(f, <<kf, Rd("t", 1)>>)) : x \in NonTables, f \in {"std.min_by_key", "std.max_by_key", "std.sorted_by_key"}, kf \in {Clo(P2, <<Ret(Rd("v", 1))>>)} }
+
+Programs == CASE Shard = "ops" -> OpsPrograms [] Shard = "ctl" -> CtlPrograms [] Shard = "std" -> StdPrograms
 
 VARIABLE prog
 Init == prog \in Programs
